@@ -86,9 +86,12 @@ def gen_mixed(rnd):
             c = rnd.random()
             if c < 0.15:
                 a = rnd.choice(["", " "])
-                return "%s(%s%s%s)" % (rnd.choice(["round", "floor", "ceil"]), a, plain(d - 1), a)
+                arg = plain(d - 1)
+                if rnd.random() < 0.3:
+                    arg = "(" + arg + ")"            # a wholly parenthesised argument
+                return "%s(%s%s%s)" % (rnd.choice(["round", "floor", "ceil"]), a, arg, a)
             if c < 0.22:
-                return "round(%s%s,%s%d%s)" % (plain(d - 1), rnd.choice(["", " "]), rnd.choice(["", " "]), rnd.randint(0, 3), rnd.choice(["", " "]))
+                return "round(%s%s,%s%s%s)" % (plain(d - 1), rnd.choice(["", " "]), rnd.choice(["", " "]), rnd.choice(["%d", "(%d)"]) % rnd.randint(0, 3), rnd.choice(["", " "]))
             return num()
         op = rnd.choice(["+", "-", "*", "/", "^"])
         l = plain(d - 1)
@@ -173,7 +176,7 @@ def run(chk):
     vecs = model_gen(chk, p)
     strings = [v["src"] for v in vecs]
     res, resp, recs = run_strings(chk, strings, "c06-replay", "replay of renderings", chunk=5000)
-    if resp.judged < len(strings):
+    if resp.judged < len(strings) and not chk.violations:
         raise ToolError("only %d of %d emitted renderings were read as an expression by the reference grammar" % (resp.judged, len(strings)))
     nontrivial(chk, recs)
     for r in recs[len(recs) // 2: len(recs) // 2 + 3]:
